@@ -99,6 +99,7 @@ CONST_GROUPS = {
     "security": "internal/security",
     "listener": "internal/network/listener",
     "storage": "internal/provider/storage",
+    "facts": "internal/zverif/gofacts",
     "websocket": "internal/network/websocket",
     "cluster": "internal/service/cluster",
 }
